@@ -224,7 +224,7 @@ func main() {
 			retry = append(retry, ob)
 		}
 	}
-	if len(retry) > 0 {
+	if len(retry) > 0 && os.Getenv("GOVC_NO_RETRY") == "" { // the must-fail corpus expects failures: no second chance needed there
 		solveAll(retry, qdir, timeout*3, cross, 4)
 	}
 	if *dump {
